@@ -1116,7 +1116,49 @@ def openshut(rng):
     return {"cfg": c, "ops": ops}
 
 
-FAMILIES = {"openshut": openshut, "windowlimit": windowlimit, "tampercs": tampercs, "fwdlate": fwdlate, "asyncsign": asyncsign, "skim": skim, "batchopen": batchopen, "discomplete": discomplete, "monbcast": monbcast, "staletwo": staletwo, "bigclaim": bigclaim, "dustclose": dustclose, "slots": slots, "asynccross": asynccross, "blockedjump": blockedjump, "feecross": feecross, "opendisc": opendisc, "chainsettle": chainsettle, "crosslimit": crosslimit, "evhold": evhold, "failwin": failwin, "fanin": fanin, "inflight": inflight, "holdcell": holdcell, "stalehold": stalehold}
+def inflightadd(rng):
+    """The revocation that makes inbound HTLCs irrevocable at X arrives while X's monitor writes are in flight: the HTLCs
+    wait in X for that write (neither shown to the user nor forwarded yet); X's manager is written right there and X
+    dies (C10: after the restart -- in-flight write landed or replayed -- every HTLC that was pending still resolves)."""
+    n = rng.choice([2, 3, 3])
+    x = 1 if n == 3 else rng.choice([0, 1])
+    pairs = [(i, i + 1) for i in range(n - 1)]
+    src = rng.choice([j for j in range(n) if j != x and abs(j - x) == 1])
+    dst = x if (n == 2 or rng.random() < 0.35) else (2 - src if n == 3 else x)
+    ops, npay = [], 0
+    # optionally something X already holds for its user / its next forward (an earlier, fully processed or not yet
+    # processed HTLC), and traffic the other way
+    if rng.random() < 0.4:
+        ops += [{"op": "send", "from": src, "to": dst, "amt": rng.choice(["big", "justabove"])}]
+        npay += 1
+        ops += [{"op": "deliver", "from": src, "to": x}] * 2 + [{"op": "deliver", "from": x, "to": src}] * 2 + [{"op": "deliver", "from": src, "to": x}]
+        if rng.random() < 0.5:
+            ops.append({"op": "forward", "node": x})
+    if rng.random() < 0.3:
+        ops += [{"op": "send", "from": x, "to": src, "amt": "big"}, {"op": "deliver_all"}]
+        npay += 1
+    k = rng.choice([1, 1, 2, 3])
+    for _ in range(k):
+        ops.append({"op": "send", "from": src, "to": dst, "amt": rng.choice(["big", "justabove", "dust"])})
+        npay += 1
+    # add(s) + commitment_signed to X, X's revocation + commitment_signed back, then src's revocation is on its way
+    ops += [{"op": "deliver", "from": src, "to": x}] * (k + 1) + [{"op": "deliver", "from": x, "to": src}] * 2
+    ops.append({"op": "persist_mode", "node": x, "mode": "inprogress"})
+    ops += [{"op": "deliver", "from": src, "to": x}] * rng.choice([1, 1, 2])
+    if rng.random() < 0.3:
+        ops.append({"op": "forward", "node": x})
+    if rng.random() < 0.25:
+        ops.append({"op": "complete", "node": x, "which": rng.choice(["oldest", "newest"])})
+    ops.append({"op": "crash", "node": x, "mgr": 0, "mon": rng.choice(["durable", "latest", "random"])})
+    for (a, b) in pairs:
+        ops.append({"op": "reconnect", "a": a, "b": b})
+    dirs = [(a, b) for (a, b) in pairs] + [(b, a) for (a, b) in pairs]
+    ops += _deliveries(rng, dirs, rng.randrange(0, 8))
+    ops += _wind_down(npay, rng, pairs)
+    return {"cfg": _cfg(rng, n), "ops": ops}
+
+
+FAMILIES = {"inflightadd": inflightadd, "openshut": openshut, "windowlimit": windowlimit, "tampercs": tampercs, "fwdlate": fwdlate, "asyncsign": asyncsign, "skim": skim, "batchopen": batchopen, "discomplete": discomplete, "monbcast": monbcast, "staletwo": staletwo, "bigclaim": bigclaim, "dustclose": dustclose, "slots": slots, "asynccross": asynccross, "blockedjump": blockedjump, "feecross": feecross, "opendisc": opendisc, "chainsettle": chainsettle, "crosslimit": crosslimit, "evhold": evhold, "failwin": failwin, "fanin": fanin, "inflight": inflight, "holdcell": holdcell, "stalehold": stalehold}
 
 
 def make(rng, family, count):
